@@ -4,13 +4,14 @@
 
 /* ---------------- environment (INT): what other threads may do between two atomic accesses of this thread ---------------- */
 _Bool env_ge_on, env_ent_on, env_orph_on; epoch_t env_ge_cap; chain_t env_added, env_removed;
+static epoch_t mk_dist(unsigned* rem); static unsigned rem_add(unsigned r, unsigned k);
 #ifdef XV_INT
 static void env_td(void) {
   if (env_ge_on) {            /* the global epoch only grows; while this thread is in a critical region at epoch e it cannot pass e+1 (env_ge_cap) */
     unsigned rd; epoch_t dl = mk_dist(&rd); if (global_epoch <= env_ge_cap && dl <= env_ge_cap - global_epoch) { global_epoch += dl; ge_rem = rem_add(ge_rem, rd); }
   }
   if (env_ent_on) {           /* records of other threads: anything */
-    for (unsigned i = 0; i < XV_E; i++) if (&ent[i] != ltd.control_block) { ent[i].is_in_critical_region = nondet_bool(); ent[i].local_epoch = nondet_u64(); }
+    for (unsigned i = 0; i < XV_E; i++) { oth[i].is_in_critical_region = nondet_bool(); oth[i].local_epoch = nondet_u64(); }
   }
   if (env_orph_on) {          /* other threads abandon nodes retired at a local epoch t <= global into slot t % number_epochs, or adopt a whole slot */
     unsigned s = nondet_uint(); XV_ASSUME(s < NE);
@@ -38,15 +39,19 @@ static unsigned rem_add(unsigned r, unsigned k) { return (r + k) % (unsigned)NE;
 /* `x % number_epochs` of the lowered text */
 struct anchor { _Bool on; epoch_t val; unsigned rem; } anchors[5]; _Bool mod_unknown;
 static void set_anchor(unsigned i, epoch_t v, unsigned r) { anchors[i].on = 1; anchors[i].val = v; anchors[i].rem = r; }
+static _Bool try_anchor(unsigned i, epoch_t x, epoch_t* out) {
+  if (!anchors[i].on) return 0;
+  epoch_t v = anchors[i].val; unsigned r = anchors[i].rem;
+#define XV_TRY(j) if (v <= MAX_EPOCH && x == v + (j)) { *out = rem_add(r, (j)); return 1; } if (v >= (j) && x == v - (j)) { *out = rem_add(r, (unsigned)NE * 2 - (j)); return 1; }
+  XV_TRY(0u) XV_TRY(1u) XV_TRY(2u) XV_TRY(3u)
+#undef XV_TRY
+  return 0;
+}
 epoch_t xv_mod_ne(epoch_t x) {
+  epoch_t out = 0;
   if (ge_acq_seen) set_anchor(3, ge_acq_val, ge_acq_rem);
   if (n_ge_load) set_anchor(4, ge_first_val, ge_first_rem);
-  for (unsigned i = 0; i < 5; i++) if (anchors[i].on) {
-    for (unsigned j = 0; j <= 3; j++) {
-      if (anchors[i].val <= MAX_EPOCH && x == anchors[i].val + j) return rem_add(anchors[i].rem, j);
-      if (anchors[i].val >= j && x == anchors[i].val - j) return rem_add(anchors[i].rem, (unsigned)NE * 2 - j);
-    }
-  }
+  if (try_anchor(0, x, &out) || try_anchor(1, x, &out) || try_anchor(2, x, &out) || try_anchor(3, x, &out) || try_anchor(4, x, &out)) return out;
   mod_unknown = 1; return x % NE;
 }
 /* the facts about % that the ghost remainders rely on */
@@ -58,10 +63,10 @@ void h_mod_lemma(void) {
   XV_OBL("ebr.model.mod_lemma", NE * 2 >= 3 && x % NE < NE);
   XV_CANARY("mod_lemma.reached");
 }
-struct snap { chain_t rl[XV_MAXNE], ol[XV_MAXNE], del; struct tcb ent[XV_E]; epoch_t ge; struct td td; _Bool has_cb; struct tcb cb; } pre;
-static unsigned pos_of(struct tcb* p) { for (unsigned i = 0; i < XV_E; i++) if (p == &ent[i]) return i; return n_ent; }
+struct snap { chain_t rl[XV_MAXNE], ol[XV_MAXNE], del; struct tcb oth[XV_E]; epoch_t ge; struct td td; _Bool has_cb; struct tcb cb; struct tcb* head; } pre;
+static unsigned pos_of(struct tcb* p) { for (unsigned i = 0; i < XV_E; i++) if (i < n_ent && p == seq(i)) return i; return n_ent; }
 static void reset_monitors(void) {
-  xv_clock = 1; mod_unknown = 0; for (unsigned i = 0; i < 5; i++) anchors[i].on = 0; mon_src = 0; in_scan = scan_done = scan_ret = 0; n_scan = n_scan_reset = 0; trk_flag_seen = trk_ep_seen = 0; last_scan_load_clk = 0;
+  xv_clock = 1; mod_unknown = 0; anchors[0].on = anchors[1].on = anchors[2].on = anchors[3].on = anchors[4].on = 0; mon_src = 0; in_scan = scan_done = scan_ret = 0; n_scan = n_scan_reset = 0; trk_flag_seen = trk_ep_seen = 0; last_scan_load_clk = 0;
   n_flag_true = n_flag_false = 0; n_sc_fence = n_acq_fence = 0; sc_fence_clk = acq_fence_clk = 0; n_ge_load = 0; ge_acq_seen = 0; n_le_store = 0; n_other_store = n_ge_store = 0;
   n_cas = 0; cas_ok = 0; adv_bad_delta = adv_no_scan = adv_trk_unchecked = adv_bad_sync = 0; expect_scan = 0;
   n_delete_calls = n_steal = n_ol_add = n_ol_adopt = n_push = 0; del_twice = stub_pre_violated = 0; deleted_in_call = 0; last_delete_clk = 0;
@@ -69,11 +74,13 @@ static void reset_monitors(void) {
 }
 static void havoc_world(_Bool with_cb) {
   n_ent = nondet_uint(); XV_ASSUME(n_ent >= 1 && n_ent <= XV_E);
+  own = nondet_uint(); XV_ASSUME(own < n_ent);
   for (unsigned i = 0; i < XV_E; i++) {
-    ent[i].is_in_critical_region = nondet_bool(); ent[i].local_epoch = nondet_u64(); ent[i].state = nondet_int(); XV_ASSUME(ent[i].state >= ST_FREE && ent[i].state <= ST_ACTIVE);
-    ent[i].next_entry = (i + 1 < n_ent) ? &ent[i + 1] : 0;
+    oth[i].is_in_critical_region = nondet_bool(); oth[i].local_epoch = nondet_u64(); oth[i].state = nondet_int(); XV_ASSUME(oth[i].state >= ST_FREE && oth[i].state <= ST_ACTIVE); oth[i].next_entry = 0;
   }
-  global_thread_block_list.head = &ent[0];
+  own_cb.is_in_critical_region = nondet_bool(); own_cb.local_epoch = nondet_u64(); own_cb.state = nondet_int(); XV_ASSUME(own_cb.state >= ST_FREE && own_cb.state <= ST_ACTIVE); own_cb.next_entry = 0;
+  for (unsigned i = 0; i < XV_E; i++) if (i + 1 < n_ent) seq(i)->next_entry = seq(i + 1);
+  global_thread_block_list.head = seq(0);
   deleted_mask = nondet_u32();
   for (unsigned i = 0; i < XV_MAXNE; i++) {
     orphans[i].set = i < NE ? nondet_u32() : 0; ltd.retire_lists[i].set = i < NE ? nondet_u32() : 0;
@@ -81,22 +88,22 @@ static void havoc_world(_Bool with_cb) {
   unsigned k = nondet_uint(); XV_ASSUME(k < 32); g_bit = (chain_t)1 << k;
   ltd.critical_entries_since_update = nondet_uint(); ltd.nested_critical_entries = nondet_uint(); ltd.region_entries = nondet_uint();
   ltd.local_epoch_idx = nondet_u64();
-  own = nondet_uint(); XV_ASSUME(own < n_ent);
-  ltd.control_block = with_cb ? &ent[own] : 0; acq_entry = &ent[own];
+  ltd.control_block = with_cb ? &own_cb : 0; acq_entry = &own_cb;
   /* epochs: own local epoch le0 <= global epoch = le0 + dg; the tag of the tracked node is built relative to them (g_kind), so that every remainder is known by construction */
   epoch_t le0 = mk_dist(&le_rem); XV_ASSUME(le0 <= MAX_EPOCH); unsigned rdg; epoch_t dg = mk_dist(&rdg); XV_ASSUME(dg <= MAX_EPOCH - le0);
   global_epoch = le0 + dg; ge_rem = rem_add(le_rem, rdg);
-  if (with_cb) ent[own].local_epoch = le0;
+  if (with_cb) own_cb.local_epoch = le0;
   g_kind = nondet_uint(); XV_ASSUME(g_kind <= 3 && g_kind != 2);
   if (g_kind == 0) { unsigned kk = nondet_uint(); XV_ASSUME(kk < NE && kk <= le0); g_tag = le0 - kk; g_rt = rem_add(le_rem, (unsigned)NE - kk); }          /* le0 - k, k < number_epochs */
   else if (g_kind == 1) { unsigned rt2; epoch_t dt = mk_dist(&rt2); XV_ASSUME(dt <= global_epoch); g_tag = global_epoch - dt; g_rt = rem_add(ge_rem, (unsigned)NE - rt2); }   /* anything <= global */
   else { unsigned jj = nondet_uint(); XV_ASSUME(jj <= 3 && le0 + jj <= MAX_EPOCH); g_tag = le0 + jj; g_rt = rem_add(le_rem, jj); }                    /* le0 + j, j <= 3 */
 #if XV_SCAN == 1
-  { unsigned it = nondet_uint(); XV_ASSUME(it < n_ent); ltd.scan_strategy.thread_iterator = &ent[it]; }
+  { unsigned it = nondet_uint(); XV_ASSUME(it < n_ent); ltd.scan_strategy.thread_iterator = seq(it); }
 #else
   ltd.scan_strategy.unused = nondet_int();
 #endif
-  unsigned t = nondet_uint(); XV_ASSUME(t < n_ent); trk = &ent[t];
+  unsigned t = nondet_uint(); XV_ASSUME(t < n_ent); trk = seq(t); trk_flag_addr = &trk->is_in_critical_region; trk_le_addr = &trk->local_epoch;
+  own_flag_addr = with_cb ? (void*)&own_cb.is_in_critical_region : (void*)0; own_le_addr = with_cb ? (void*)&own_cb.local_epoch : (void*)0;
 #if XV_SCAN == 1
   trk_prevalid = pos_of(trk) < pos_of(ltd.scan_strategy.thread_iterator);   /* invariant of n_threads: the entries before the iterator were validated for the current local epoch since the last reset() */
 #else
@@ -172,18 +179,18 @@ static epoch_t stub_update_global_epoch(struct td* self, epoch_t curr_epoch, epo
 }
 static void take_snap(void) {
   for (unsigned i = 0; i < XV_MAXNE; i++) { pre.rl[i] = ltd.retire_lists[i].set; pre.ol[i] = orphans[i].set; }
-  for (unsigned i = 0; i < XV_E; i++) pre.ent[i] = ent[i];
-  pre.del = deleted_mask; pre.ge = global_epoch; pre.td = ltd; pre.has_cb = ltd.control_block != 0; if (pre.has_cb) pre.cb = *ltd.control_block;
+  for (unsigned i = 0; i < XV_E; i++) pre.oth[i] = oth[i];
+  pre.head = global_thread_block_list.head;
+  pre.del = deleted_mask; pre.ge = global_epoch; pre.td = ltd; pre.has_cb = ltd.control_block != 0; pre.cb = own_cb;
 }
 static chain_t pre_all(void) { chain_t u = pre.del; for (unsigned i = 0; i < XV_MAXNE; i++) u |= pre.rl[i] | pre.ol[i]; return u; }
 /* C02: the multiset of retired nodes is conserved: (lists now) + (deleted now) = (lists before) + (deleted before), up to what the environment added/took;
  * no node in two places, none deleted twice, stub preconditions respected */
 static _Bool conserved(void) { return !del_twice && !mod_unknown && disjoint_all() && (all_nodes() | env_removed) == (pre_all() | env_added) && (all_nodes() & env_removed) == 0; }
 static _Bool others_unchanged(void) {
-  for (unsigned i = 0; i < XV_E; i++) if (&ent[i] != ltd.control_block && &ent[i] != acq_entry) {
-    if (ent[i].is_in_critical_region != pre.ent[i].is_in_critical_region || ent[i].local_epoch != pre.ent[i].local_epoch || ent[i].state != pre.ent[i].state) return 0; }
-  for (unsigned i = 0; i < XV_E; i++) if (ent[i].next_entry != pre.ent[i].next_entry) return 0;
-  return global_thread_block_list.head == &ent[0];
+  for (unsigned i = 0; i < XV_E; i++) {
+    if (oth[i].is_in_critical_region != pre.oth[i].is_in_critical_region || oth[i].local_epoch != pre.oth[i].local_epoch || oth[i].state != pre.oth[i].state || oth[i].next_entry != pre.oth[i].next_entry) return 0; }
+  return own_cb.next_entry == pre.cb.next_entry && global_thread_block_list.head == pre.head && (ltd.control_block != 0 || pre.has_cb || (own_cb.is_in_critical_region == pre.cb.is_in_critical_region && own_cb.local_epoch == pre.cb.local_epoch && own_cb.state == pre.cb.state));
 }
 static _Bool lists_unchanged(void) { for (unsigned i = 0; i < XV_MAXNE; i++) if (ltd.retire_lists[i].set != pre.rl[i] || orphans[i].set != pre.ol[i]) return 0; return deleted_mask == pre.del; }
 #define G_DELETED_NOW ((deleted_mask & g_bit) && !(pre.del & g_bit))
@@ -247,7 +254,7 @@ void h_enter_critical(void) {
   XV_OBL("ebr.adopt.reinit", n_acquire == (with_cb ? 0u : 1u) && n_release == 0);
 #if XV_SCAN == 1
   XV_OBL("ebr.scan.prefix_valid", ltd.scan_strategy.thread_iterator != 0 && (pos_of(trk) < pos_of(ltd.scan_strategy.thread_iterator) ? trk_ok(cb->local_epoch) : 1));
-  XV_OBL("ebr.scan.prefix_valid", cb->local_epoch != le0 || !with_cb ? scan_at_begin() : 1);
+  XV_OBL("ebr.scan.prefix_valid", cb->local_epoch != (with_cb ? le0 : ge_first_val) ? scan_at_begin() : 1);   /* reset() whenever the local epoch changed */
 #endif
   XV_OBL("ebr.enter.invariant", inv_td_r(lrem1));
   if (n_cas == 1 && cas_ok) XV_CANARY("enter.cas_ok");
@@ -257,17 +264,17 @@ void h_enter_critical(void) {
 }
 
 /* ---------------- leave_critical (real clear_critical_region_flag, leave_region, abandon strategy) ---------------- */
-static void check_abandon(_Bool cleared) {
+static _Bool check_abandon(_Bool cleared) {
+  _Bool any_moved = 0;
   for (unsigned i = 0; i < NE; i++) {
     _Bool moved = cleared && XV_ABANDON != 0 && pre.rl[i] != 0 && (XV_ABANDON == 1 || (size_t)__builtin_popcount(pre.rl[i]) >= in_threshold);
     /* a list is abandoned as a whole into the orphan slot with the same index, or not at all */
     XV_OBL("ebr.orphans.slot", moved ? (ltd.retire_lists[i].set == 0 && orphans[i].set == (pre.ol[i] | pre.rl[i])) : (ltd.retire_lists[i].set == pre.rl[i] && orphans[i].set == pre.ol[i]));
-#if XV_ABANDON != 0
-    if (moved) XV_CANARY("abandon.moved");
-#endif
+    if (moved) any_moved = 1;
   }
   XV_OBL("ebr.orphans.slot", inv_tag_orphan() && inv_tag_local(ltd.control_block->local_epoch));
   XV_OBL("ebr.conserve", conserved() && !stub_pre_violated && deleted_mask == pre.del && n_delete_calls == 0);
+  return any_moved;
 }
 void h_leave_critical(void) {
   havoc_world(1); XV_ASSUME(inv_td_pre()); XV_ASSUME(ltd.nested_critical_entries >= 1); take_snap();
@@ -278,7 +285,10 @@ void h_leave_critical(void) {
   /* the flag is cleared exactly when the relevant counter reaches 0, never while a guard is left, and by a release store */
   XV_OBL("ebr.nesting.balanced", cb->is_in_critical_region == !clear && n_flag_false == (clear ? 1u : 0u) && n_flag_true == 0 && (clear ? ltd.nested_critical_entries == 0 : 1));
   if (clear) XV_OBL("ebr.leave.release_store", XV_IS_RELEASE(flag_false_order));
-  check_abandon(clear);
+  _Bool moved = check_abandon(clear);
+#if XV_ABANDON != 0
+  if (moved) XV_CANARY("abandon.moved");
+#endif
   XV_OBL("ebr.conserve", others_unchanged() && n_other_store == 0 && global_epoch == pre.ge && cb->local_epoch == pre.cb.local_epoch && n_cas == 0 && n_release == 0);
   XV_OBL("ebr.enter.invariant", inv_td());
   if (clear) XV_CANARY("leave.cleared"); else XV_CANARY("leave.stays");
@@ -315,7 +325,10 @@ void h_leave_region(void) {
   XV_OBL("ebr.nesting.balanced", ltd.nested_critical_entries == n0 && ltd.region_entries == (XV_REGION_EXT == RE_none ? r0 : r0 - 1));
   XV_OBL("ebr.nesting.balanced", cb->is_in_critical_region == (f0 && !clear) && n_flag_false == (clear ? 1u : 0u) && n_flag_true == 0 && (clear ? n0 == 0 : 1));
   if (clear) XV_OBL("ebr.leave.release_store", XV_IS_RELEASE(flag_false_order));
-  check_abandon(clear);
+  _Bool moved = check_abandon(clear);
+#if XV_ABANDON != 0 && XV_REGION_EXT != 0
+  if (moved) XV_CANARY("abandon.moved");
+#endif
   XV_OBL("ebr.conserve", others_unchanged() && n_other_store == 0 && global_epoch == pre.ge && cb->local_epoch == pre.cb.local_epoch && n_cas == 0);
   XV_OBL("ebr.enter.invariant", inv_td());
 #if XV_REGION_EXT != 0
@@ -383,10 +396,14 @@ void h_update_global_epoch(void) {
 #endif
   XV_OBL("ebr.conserve", cb->local_epoch == in_curr && cb->is_in_critical_region && ltd.local_epoch_idx == pre.td.local_epoch_idx);
   if (n_cas == 1 && cas_ok) XV_CANARY("uge.advanced");
+#ifdef XV_INT
   if (n_cas == 1 && !cas_ok) XV_CANARY("uge.cas_lost");
+#endif
   if (n_cas == 0) XV_CANARY("uge.stale");
   if (G_DELETED_NOW) XV_CANARY("uge.freed_tracked_orphan");
+#ifdef XV_INT
   if (env_added & g_bit) XV_CANARY("uge.env_abandoned_tracked");
+#endif
 }
 
 /* ---------------- scan strategies ---------------- */
@@ -411,7 +428,7 @@ void h_scan(void) {
   if (!r && p1 > p0) XV_CANARY("scan.n.partial");
 #else
 #ifndef XV_INT
-  _Bool blocked = 0; for (unsigned i = 0; i < XV_E; i++) if (i < n_ent && ent[i].is_in_critical_region && ent[i].local_epoch != e) blocked = 1;
+  _Bool blocked = 0; for (unsigned i = 0; i < XV_E; i++) if (i < n_ent && seq(i)->is_in_critical_region && seq(i)->local_epoch != e) blocked = 1;
   XV_OBL("ebr.scan.exact", r == !blocked && others_unchanged());     /* entries outside a critical region (e.g. of exited threads) never block */
 #endif
   if (r) XV_CANARY("scan.all.true"); else XV_CANARY("scan.all.false");
